@@ -18,7 +18,7 @@ func globRules() []*Rule {
 		{ID: "GLOB-2", Props: []string{"C20"}, Min: 30,
 			Doc: "no handle type (DB, Database, pagers, caches, Statement, Rows, Table, Index) is reachable from the type of a package-level variable",
 			Run: runGlob2},
-		{ID: "GLOB-3", Props: []string{"C20", "C19"}, Min: 1,
+		{ID: "GLOB-3", Props: []string{"C20", "C19", "C17", "C06"}, Min: 1,
 			Doc: "the only goroutine the module starts is the driver's row producer",
 			Run: runGlob3},
 		{ID: "ARG-RO", Props: []string{"C20", "C03", "C18"}, Min: 1,
